@@ -5,7 +5,9 @@ name, O_EXCL, close before rename, temp->final, handler unlinks and re-raises (C
 compact bundles append the record before they publish the index entry, with the published
 offset data-dependent on the append (C06.c); every reader of record bytes at an
 index-derived offset treats zero as missing (C06.d); every store goes through the atomic
-writer with the location the readers open (C06.e)."""
+writer with the location the readers open (C06.e).
+Added in round 5: storage modules do not write through raw descriptors and do not copy files into
+place (C06.g)."""
 import ast
 
 from ..engine import rule
